@@ -1,5 +1,6 @@
 // govc:pkg .
 // govc:bound 10 WHERE conditions mixing f(x) IS [NOT] NULL, plain column IS [NOT] NULL and other function calls / comparisons, joined by AND / OR, x 16 rows (a in {x, y}, b, c, d.x each NULL or a number)
+// govc:also C06 C20
 // Bounded stand-in (NOT a proof) for the regular-expression rewriting of IS [NOT] NULL into calls (PreprocessIsNullExpression,
 // outside the contracts): the row is kept exactly when the condition holds under the plain reading of IS NULL, also when
 // another function call stands earlier or later in the same condition.
